@@ -659,3 +659,106 @@ def block_alg_corpus(kind, seed, tier, n_unit_words, long_words, salt):
             left -= n
         S.case("%s long run %d" % (kind, r), ops, weight=long_words + 300)
     return S
+
+
+# ---------------------------------------------------------------- C08 / C09
+def src_bytes(rng, kind, zero_blocks, total_blocks=6):
+    bl = SEEDLEN[kind] if kind not in ("IsaacRng", "Isaac64Rng") else SEEDLEN[kind]
+    out = [0] * (bl * zero_blocks)
+    while len(out) < bl * total_blocks:
+        out.append(rng.getrandbits(8))
+    # make sure the first non-zero block really is non-zero
+    if out[bl * zero_blocks: bl * (zero_blocks + 1)] == [0] * bl:
+        out[bl * zero_blocks] = 1
+    return out
+
+
+def c08_corpus(seed, tier, adversarial):
+    rng = random.Random(seed * 1000003 + 8)
+    S = Sched()
+    PHI = 0x9E3779B97F4A7C15
+    for kind in LINEAR:
+        nat = native_op(kind)
+        L = SEEDLEN[kind]
+        ops = [{"op": "from_seed", "g": 1, "kind": kind, "seed": [0] * L}, {"op": nat, "g": 1, "n": 8}]
+        if kind != "XorShiftRng":
+            ops += [{"op": "seed_from_u64", "g": 2, "kind": kind, "x": u64(0)}, {"op": "from_seed", "g": 1, "kind": kind, "seed": [0] * L},
+                    {"op": "eq", "a": 1, "b": 2}, {"op": nat, "g": 2, "n": 8}]
+        # almost-zero seeds: one non-zero byte at each end and in the middle, each bit value
+        for pos in (0, 1, L // 2, L - 2, L - 1):
+            for val in (1, 0x80):
+                sd = [0] * L
+                sd[pos] = val
+                ops += [{"op": "from_seed", "g": 3, "kind": kind, "seed": sd}, {"op": nat, "g": 3, "n": 2}]
+        S.case("%s zero and almost-zero seeds" % kind, ops)
+        # u64 arguments: the adversarial ones (some seed word is zero), neighbours, random
+        xs = list(adversarial) + [(a + 1) & M64 for a in adversarial[:2]] + [0, 1, M64, 1 << 63] + [rng.getrandbits(64) for _ in range(4 if tier == "quick" else 40)]
+        ops = []
+        for x in xs:
+            ops += [{"op": "seed_from_u64", "g": 1, "kind": kind, "x": u64(x)}, {"op": nat, "g": 1, "n": 3}]
+        S.case("%s seed_from_u64 adversarial" % kind, ops)
+        # sources with leading all-zero blocks
+        ops = []
+        sid = 1
+        for z in range(0, 4):
+            for fallible in (False, True):
+                ops.append({"op": "src", "s": sid, "bytes": src_bytes(rng, kind, z), "fallible": fallible})
+                ops.append({"op": "try_from_rng" if fallible else "from_rng", "g": 1, "kind": kind, "s": sid})
+                ops.append({"op": nat, "g": 1, "n": 3})
+                ops.append({"op": "try_from_rng" if fallible else "from_rng", "g": 2, "kind": kind, "s": sid})   # cursor carried over
+                ops.append({"op": nat, "g": 2, "n": 2})
+                sid += 1
+        S.case("%s from_rng with leading zero blocks" % kind, ops)
+    return S
+
+
+def c09_corpus(seed, tier):
+    rng = random.Random(seed * 1000003 + 9)
+    S = Sched()
+    PHI = 0x9E3779B97F4A7C15
+    heavy = {"Hc128Rng": 3, "IsaacRng": 3, "Isaac64Rng": 3}
+    for kind in ALL_SEEDABLE:
+        nat = native_op(kind)
+        nx = (4 if kind in heavy else 10) if tier == "quick" else (24 if kind in heavy else 80)
+        xs = [0, 1, M64, (-PHI) & M64, 1 << 32, 1 << 63][: (3 if kind in heavy and tier == "quick" else 6)] + [rng.getrandbits(64) for _ in range(nx)]
+        ops = []
+        for x in xs:
+            ops += [{"op": "seed_from_u64", "g": 1, "kind": kind, "x": u64(x)}, {"op": nat, "g": 1, "n": 40 if kind in heavy else 8}]
+        S.case("%s seed_from_u64 values" % kind, ops, weight=len(xs) * (300 if kind in heavy else 10))
+        # from_rng: exactly one seed's worth (or the whole ISAAC state) from the cursor
+        ops, sid = [], 1
+        for rep in range(2 if tier == "quick" else 8):
+            n = FROMRNG_LEN.get(kind, SEEDLEN[kind])
+            b = [rng.getrandbits(8) for _ in range(2 * n + 7)]
+            ops.append({"op": "src", "s": sid, "bytes": b})
+            ops += [{"op": "from_rng", "g": 1, "kind": kind, "s": sid}, {"op": nat, "g": 1, "n": 20}]
+            ops += [{"op": "from_rng", "g": 2, "kind": kind, "s": sid}, {"op": nat, "g": 2, "n": 4}]
+            sid += 1
+        S.case("%s from_rng" % kind, ops, weight=len(ops) * (150 if kind in heavy else 5))
+        # try_from_rng with failing sources
+        ops, sid = [], 1
+        n = FROMRNG_LEN.get(kind, SEEDLEN[kind])
+        for fail_at in (None, 1, 2, 3):
+            for partial, sticky in ((0, False), (5, False), (0, True)):
+                if fail_at is None and (partial or sticky):
+                    continue
+                z = rng.choice([0, 0, 1, 2]) if kind == "XorShiftRng" else 0
+                b = src_bytes(rng, kind, z) if kind == "XorShiftRng" else [rng.getrandbits(8) for _ in range(3 * n + 5)]
+                o = {"op": "src", "s": sid, "bytes": b, "fallible": True, "partial": partial, "sticky": sticky}
+                if fail_at is not None:
+                    o["fail_at"] = fail_at
+                ops.append(o)
+                for g in (1, 2, 3):
+                    ops.append({"op": "try_from_rng", "g": g, "kind": kind, "s": sid})
+                    ops.append({"op": "drop", "g": g})
+                sid += 1
+        # and one successful try_from_rng whose generator is compared with from_rng of the same bytes
+        b = [rng.getrandbits(8) for _ in range(2 * n + 3)]
+        ops += [{"op": "src", "s": 90, "bytes": b}, {"op": "src", "s": 91, "bytes": b, "fallible": True},
+                {"op": "from_rng", "g": 1, "kind": kind, "s": 90}, {"op": "try_from_rng", "g": 2, "kind": kind, "s": 91},
+                {"op": nat, "g": 1, "n": 6}, {"op": nat, "g": 2, "n": 6}]
+        S.case("%s try_from_rng" % kind, ops, weight=len(ops) * (120 if kind in heavy else 5))
+    return S
+
+
+FROMRNG_LEN = {"IsaacRng": 1024, "Isaac64Rng": 2048}
